@@ -57,6 +57,12 @@ Definition inner_str (t : tree) : string :=
   | k :: r => String.concat "" (t_text k :: map t_text r)   (* a COMMENT pair after the number: the span covers both *)
   end.
 
+(* the array size: ast_unwrap!(...parse()) in the pinned upstream code (Debug panics, Release
+   runs unwrap_unchecked on the Err); an ordinary error in both profiles after the repair
+   (PstFacts.pst_array_size_checked) *)
+Definition count_unwrap (checked : bool) (md : mode) (site : N) (o : option N) : outcome N :=
+  if checked then must RParse o else ast_unwrap md site o.
+
 (* ParamTypeIn / ParamTypeOut ::from *)
 Definition param_type_of (md : mode) (t : tree) : outcome (aty * pshape) :=
   do _ <- (match md with
@@ -72,7 +78,7 @@ Definition param_type_of (md : mode) (t : tree) : outcome (aty * pshape) :=
       | p :: _ =>
           if is_rule "unbounded_array" p then Ok (ty, PArr None)
           else if is_rule "bounded_array" p then
-            do n <- ast_unwrap md 2 (parse_count (inner_str p)); Ok (ty, PArr (Some n))
+            do n <- count_unwrap pst_array_size_checked md 2 (parse_count (inner_str p)); Ok (ty, PArr (Some n))
           else Reject ROther                                          (* unreachable!() *)
       end
   end.
@@ -190,7 +196,7 @@ Definition field_of (md : mode) (t : tree) : outcome sfield :=
   do ty <- ast_unwrap md 14 (nth_error (t_kids t) 0);
   do nx <- ast_unwrap md 15 (nth_error (t_kids t) 1);
   if is_rule "bounded_array" nx then
-    do n <- ast_unwrap md 16 (parse_count (inner_str nx));
+    do n <- count_unwrap pst_array_size_checked md 16 (parse_count (inner_str nx));
     do id <- ast_unwrap md 17 (nth_error (t_kids t) 2);
     Ok (mkF (t_text id) (type_of ty) n)
   else if is_rule "ident" nx then Ok (mkF (t_text nx) (type_of ty) 1%N)
